@@ -21,13 +21,18 @@ REQUIRED_THEOREMS = [
     'C10_dataset_rows', 'C10_dataset_row_amount', 'C10_multi_partial', 'C10_overlap_counterexample',
     'C10_surgery_direct', 'C10_surgery_indirect', 'C10_delivered_integral', 'paceStep_eq_pace',
     'C10_multi_nonoverlap', 'C10_dataset_delivery', 'C10_reduced_passthrough', 'C10_set_data_history', 'C10_averaged_passthrough',
-    'C10_readministration']
+    'C10_readministration', 'C10_frame_rows_own', 'C10_frame_relabel', 'C10_frame_regimens', 'C10_frame_by_label',
+    'C10_frame_by_label_counterexample', 'C10_likelihood_regimen', 'C10_likelihood_own_irrelevant',
+    'C10_dataset_likelihood_rows', 'C10_likelihood_skip_empty_counterexample']
 RULE = ('regimens (dose, start, duration, period|None, num|None) with dyadic numbers (and the default 0.01 '
         'duration), single / finite / indefinite, incl. ill-formed ones (zero duration, duration > period, '
         'negative start, num without period); final times on every boundary (None, < start, = start, '
         '< period, exactly on a dose, between doses); explicit multi-event protocols; datasets with 1-3 '
         'individuals, interleaved dose / observation rows, missing durations, missing duration column, '
-        'duplicate and overlapping dose times; direct and indirect administration into the library model and '
+        'duplicate and overlapping dose times, individuals without dose rows, frames whose row labels repeat '
+        '(glued pieces) or are out of order; the log-posteriors built from such datasets (one per requested '
+        'individual, all built before any is evaluated; all individuals in one hierarchical log-posterior) on '
+        'controllers whose model came with or without a regimen of its own; direct and indirect administration into the library model and '
         'generated compartment models; non-trivial = periodic regimen with non-zero start or a boundary final '
         'time; distinct = distinct (kind, start=0?, boundary class, route)')
 ASSUMPTIONS = [
@@ -576,11 +581,61 @@ def gen_dataset(rng, output):
     df = pd.DataFrame([rows[int(i)] for i in order])
     if not with_duration:
         df = df.drop(columns=['Duration'])
+    # the row labels of the frame: 0..n-1, or labels that repeat (a frame glued from per-individual pieces with
+    # pandas.concat, a frame indexed by something that is not unique) — they say nothing about who was dosed
+    r = rng.random()
+    if r < 0.2:
+        df.index = df.groupby('ID').cumcount().to_numpy()          # every individual's block counts 0, 1, 2, ...
+    elif r < 0.35:
+        df.index = rng.integers(0, 3, len(df))
+    elif r < 0.42:
+        df.index = ['row'] * len(df)
+    elif r < 0.5:
+        df.index = rng.permutation(len(df))                         # unique, but not in order
     return df, with_duration
 
 
 def opt(x):
     return None if (x is None or (isinstance(x, float) and math.isnan(x))) else float(x)
+
+
+def frame_inp(df):
+    return {'dataset': df.to_dict('list'), 'row labels': [str(x) for x in df.index]}
+
+
+def frame_rows(df, with_duration):
+    """the whole frame for the model: [row label (as a number: only equality of labels matters), ID, time, dose,
+    duration], in frame order"""
+    codes = {}
+    rows = []
+    for lab, (_, r) in zip(df.index, df.iterrows()):
+        rows.append([codes.setdefault(lab, len(codes)), str(r['ID']), opt(r['Time']), opt(r['Dose']),
+                     opt(r['Duration']) if with_duration else None])
+    return rows
+
+
+def model_regimens(mv):
+    """driver reply of C10.frame / C10.setdata -> sorted [[id, events]] (floats), None, or the error kind"""
+    if mv[0] != 'ok':
+        return mv[0]
+    if mv[1] is None:
+        return None
+    return sorted([lab, [[float(rat(a)), float(rat(b)), float(rat(c)), float(rat(d)), int(k_)]
+                         for a, b, c, d, k_ in evs]] for lab, evs in mv[1])
+
+
+def own_rows(df, label, with_duration):
+    """the dose columns of the rows that carry the individual's ID (the harness's own selection)"""
+    sub = df[(df['ID'].astype(str) == str(label)).to_numpy()]
+    return [[opt(t), opt(a), opt(d) if with_duration else None] for t, a, d in
+            zip(sub['Time'].tolist(), sub['Dose'].tolist(),
+                sub['Duration'].tolist() if with_duration else [None] * len(sub))]
+
+
+def events_of_rows(rows):
+    """the property: one event per dose row, (dose / duration, time, duration), duration missing => 0.01"""
+    return sorted([[a / (d if d is not None else 0.01), t, (d if d is not None else 0.01), 0.0, 0]
+                   for t, a, d in rows if t is not None and a is not None], key=lambda r: r[1])
 
 
 def check_dataset(ctx, chi, controller, df, with_duration, inp):
@@ -636,6 +691,12 @@ def check_dataset(ctx, chi, controller, df, with_duration, inp):
         ctx.agree('C10.dataset_build', built, model_err, inp)
     else:
         ctx.agree('C10.dataset_build', built, model_err or 'ok', inp)
+    # the whole frame at once, with its row labels: who the individuals are and which rows are theirs is part of
+    # what is compared (above the harness selects every individual's rows itself)
+    mf = model_regimens(ctx.model('C10.frame', 0.01, frame_rows(df, with_duration)))
+    got = built if regs is None else sorted([str(k), [ev_tuple(e) for e in v.events()]] for k, v in regs.items())
+    ctx.agree('C10.frame_regimens', got, mf, inp, rtol=1e-12)
+    ctx.branches.add('frame:row-labels-%s' % ('unique' if df.index.is_unique else 'repeat'))
 
 
 def check_dataset_sequence(ctx, chi, lib, rng, output):
@@ -678,7 +739,7 @@ def check_dataset_sequence(ctx, chi, lib, rng, output):
         seq.append(inds)
         regs = controller.get_dosing_regimens()
         got = None if regs is None else sorted([str(k), [ev_tuple(e) for e in v.events()]] for k, v in regs.items())
-        inp = {'set_data calls': kinds, 'model supports dosing': dosing, 'last dataset': df.to_dict('list')}
+        inp = {'set_data calls': kinds, 'model supports dosing': dosing, 'last dataset': frame_inp(df)}
         mv = ctx.model('C10.setdata', 0.01, seq)
         mm = None if mv[1] is None else sorted(
             [lab, [[float(rat(a)), float(rat(b)), float(rat(c)), float(rat(d)), int(k_)] for a, b, c, d, k_ in evs]]
@@ -695,6 +756,163 @@ def check_dataset_sequence(ctx, chi, lib, rng, output):
         ctx.spec('C10.dataset_rows/after_earlier_set_data', ok, inp,
                  {'get_dosing_regimens()': got, 'dose rows of the last dataset': want})
     ctx.case('dataset/sequence', nontrivial='dataset/sequence/%s/%s' % (dosing, '>'.join(k[:2] for k in kinds)))
+
+
+def protocol_events(code):
+    """the dose events of a protocol the (substitute) simulator held when it was run; no protocol = no events"""
+    import myokit
+    if code is None:
+        return []
+    return [ev_tuple(e) for e in myokit.parse_protocol(code).events()]
+
+
+def gaussian_reference_score(direct, rows, times, values, vals):
+    """the documented model, by hand: one-compartment kinetics driven by the individual's dose rows (closed form,
+    harness/closedform.py), concentration = amount / volume, independent Gaussian errors"""
+    order = np.argsort(np.asarray(times, float), kind='stable')
+    ts = [float(times[k]) for k in order]
+    xs = np.array([float(values[k]) for k in order])
+    sched = sorted((t, t + (d if d is not None else 0.01), a / (d if d is not None else 0.01))
+                   for t, a, d in rows if t is not None and a is not None)
+    lm = cf.one_compartment_documented(depot=not direct)
+    ov, _ = lm.solve({'A': vals['central.drug_amount'], 'Ad': vals.get('dose.drug_amount', 0.0)},
+                     {'ke': vals['global.elimination_rate'], 'V': vals['central.size'],
+                      'ka': vals.get('dose.absorption_rate', 1.0)}, ts, [], ['C'], sched)
+    sigma = vals['Sigma']
+    return float(np.sum(-0.5 * np.log(2 * np.pi) - np.log(sigma) - (xs - ov[0]) ** 2 / (2 * sigma ** 2)))
+
+
+def rows_overlap(rows):
+    ev = events_of_rows(rows)
+    return any(ev[j][1] + ev[j][2] > ev[j + 1][1] for j in range(len(ev) - 1))
+
+
+def check_dataset_likelihoods(ctx, chi, lib, rng, output):
+    """the regimens derived from a dataset, where they are used: every individual's log-likelihood inside the
+    log-posteriors of the controller must simulate exactly that individual's dose rows — no events for an
+    individual without dose rows (a control), whatever regimen the controller's model was created with, whoever
+    was handled before, in whatever order the log-posteriors are requested and evaluated"""
+    import pints
+    direct = bool(rng.random() < 0.5)
+    m = lib.one_compartment_pk_model()
+    m.set_administration('central', direct=direct)
+    own = None
+    r = rng.random()
+    if r < 0.35:
+        own, _ = gen_regimen(rng, valid_only=True)
+        m.set_dosing_regimen(**own)
+    elif r < 0.5:
+        own = {'dose': 64.0, 'start': 0.0, 'duration': 0.125, 'period': 0.5, 'num': None}   # hard to overlook
+        m.set_dosing_regimen(**own)
+    own_events = None if own is None else [ev_tuple(e) for e in m.dosing_regimen().events()]
+    controller = chi.ProblemModellingController(m, [chi.GaussianErrorModel()])
+    while True:
+        df, with_duration = gen_dataset(rng, output)
+        dose_rows = df.dropna(subset=['Dose', 'Time'])
+        if not dose_rows.duplicated(subset=['ID', 'Time']).any():
+            break
+    dose_info = bool(rng.random() < 0.88)
+    if not dose_info:
+        controller.set_data(df.drop(columns=[c for c in ('Dose', 'Duration') if c in df.columns]),
+                            dose_key=None, dose_duration_key=None)
+    elif with_duration:
+        controller.set_data(df)
+    else:
+        controller.set_data(df, dose_duration_key=None)
+    ids = [str(x) for x in pd.unique(df['ID'])]
+    rows = {i: own_rows(df, i, with_duration) for i in ids}
+    want = {i: events_of_rows(rows[i]) for i in ids}
+    obs = {}
+    for i in ids:
+        sub = df[((df['ID'].astype(str) == i) & df['Value'].notnull() & df['Time'].notnull()).to_numpy()]
+        obs[i] = (sub['Time'].tolist(), sub['Value'].tolist())
+    names = list(controller.get_parameter_names())
+    vals = {'central.drug_amount': float(rng.uniform(0, 2)), 'dose.drug_amount': float(rng.uniform(0, 2)),
+            'central.size': float(rng.uniform(0.5, 2)), 'dose.absorption_rate': float(rng.uniform(0.5, 2)),
+            'global.elimination_rate': float(rng.uniform(0.3, 1.5)), 'Sigma': float(rng.uniform(0.3, 1.5))}
+    theta = [vals[n] for n in names]
+    inp0 = dict(frame_inp(df), route='direct' if direct else 'indirect', parameters=dict(zip(names, theta)))
+    inp0['regimen of the model handed to the controller'] = own
+    inp0['dose columns'] = ('none' if not dose_info else 'dose+duration' if with_duration else 'dose')
+    untreated = [i for i in ids if not want[i]]
+    ctx.case('dataset/log_posterior', nontrivial='dataset/log_posterior/%s/own=%s/untreated=%s/%s' % (
+        inp0['dose columns'], own is not None, 'none' if not untreated else
+        'first' if untreated == ids[:1] else 'later', 'unique' if df.index.is_unique else 'repeat'), sample=inp0)
+    # the model: regimens of the frame, then the state of the working copy individual by individual
+    mregs = None
+    if dose_info:
+        mregs = model_regimens(ctx.model('C10.frame', 0.01, frame_rows(df, with_duration)))
+
+    def model_applied(request):
+        mv = ctx.model('C10.likelihoods', mregs, own_events, request)
+        if mv[0] != 'ok':
+            return mv[0]
+        return [[lab, None if evs is None else [[float(rat(a)), float(rat(b)), float(rat(c)), float(rat(d)), int(k_)]
+                                                   for a, b, c, d, k_ in evs]] for lab, evs in mv[1]]
+
+    def prior(k):
+        return pints.ComposedLogPrior(*[pints.UniformLogPrior(-100, 100) for _ in range(k)])
+    controller.set_log_prior(prior(len(names)))
+    # --- one log-posterior per requested individual; all are built first and evaluated afterwards
+    request = [ids[int(k)] for k in rng.permutation(len(ids))]
+    if len(ids) > 1 and rng.random() < 0.5:
+        request.append(ids[int(rng.integers(len(ids)))])
+    posts = [(i, controller.get_log_posterior(individual=i)) for i in request]
+    ref = {}
+    for k_, (i, post) in enumerate(posts):
+        inp = dict(inp0, individual=i, requested=request)
+        ll = post.get_log_likelihood()
+        refsim.clear_record()
+        score = float(ll(theta))
+        runs = [r_[2] for r_ in refsim.RECORD if r_[1] == 'run']
+        applied = [protocol_events(r_['protocol']) for r_ in runs]
+        sub = ll.get_submodels()['Mechanistic model'].dosing_regimen()
+        said = [] if sub is None else [ev_tuple(e) for e in sub.events()]
+        ma = model_applied([i])
+        ctx.agree('C10.likelihood_regimen', [[i, applied[-1] if applied else None]],
+                  [[lab, evs or []] for lab, evs in ma] if isinstance(ma, list) else ma, inp, rtol=1e-12)
+        if not dose_info:
+            continue                      # the property speaks about regimens derived from the dataset
+        ok = bool(applied) and all(core.close(a, want[i], 1e-12) for a in applied) and core.close(said, want[i], 1e-12)
+        ctx.spec('C10.dataset_rows/in_log_posterior', ok, inp,
+                 {'dose events the likelihood simulates with': applied[-1] if applied else None,
+                  'regimen of its mechanistic model': said, 'dose rows of the individual': want[i],
+                  'regimen the controller model came with': own_events})
+        if rows_overlap(rows[i]):
+            continue                      # (known finding: overlapping rows lose input)
+        if i not in ref:
+            ref[i] = gaussian_reference_score(direct, rows[i], obs[i][0], obs[i][1], vals)
+        ctx.spec('C10.dataset_delivery/log_posterior_value', abs(score - ref[i]) <= TOL * max(1.0, abs(ref[i])),
+                 inp, {'log-likelihood': score, 'with the dose rows of the individual (closed form)': ref[i]})
+    # --- all individuals in one hierarchical log-posterior
+    controller.set_population_model(chi.PooledModel(n_dim=len(names)))
+    controller.set_log_prior(prior(len(names)))
+    ll = controller.get_log_posterior().get_log_likelihood()
+    refsim.clear_record()
+    score = float(ll(theta))
+    runs = [r_[2] for r_ in refsim.RECORD if r_[1] == 'run']
+    applied = sorted(protocol_events(r_['protocol']) for r_ in runs)
+    ma = model_applied(ids)
+    inp = dict(inp0, population_model='PooledModel')
+    ctx.agree('C10.likelihood_regimens_hierarchical', applied,
+              sorted(evs or [] for _, evs in ma) if isinstance(ma, list) else ma, inp, rtol=1e-12)
+    if not dose_info:
+        return
+    wanted = sorted(want[i] for i in ids)
+    ctx.spec('C10.dataset_rows/in_hierarchical_log_posterior',
+             len(applied) == len(wanted) and core.close(applied, wanted, 1e-12), inp,
+             {'dose events the likelihoods simulate with (sorted)': applied,
+              'dose rows of the individuals (sorted)': wanted, 'regimen the controller model came with': own_events})
+    if any(rows_overlap(rows[i]) for i in ids):
+        return
+    for i in ids:
+        if i not in ref:
+            ref[i] = gaussian_reference_score(direct, rows[i], obs[i][0], obs[i][1], vals)
+    total = sum(ref[i] for i in ids)
+    ctx.spec('C10.dataset_delivery/hierarchical_log_posterior_value',
+             abs(score - total) <= TOL * max(1.0, abs(total)), inp,
+             {'log-likelihood': score, 'sum over the individuals, each with its own dose rows (closed form)': total,
+              'per individual': ref})
 
 
 def build_wrappers(chi, lib):
@@ -947,9 +1165,11 @@ def run(ctx):
         for i in range(80 if quick else 800):
             rng = ctx.sub_rng(2 * 10 ** 5 + i)
             df, with_duration = gen_dataset(rng, out)
-            ctx.guard(check_dataset, ctx, chi, controller, df, with_duration, {'dataset': df.to_dict('list')})
+            ctx.guard(check_dataset, ctx, chi, controller, df, with_duration, frame_inp(df))
         for i in range(25 if quick else 300):
             ctx.guard(check_dataset_sequence, ctx, chi, lib, ctx.sub_rng(4 * 10 ** 5 + i), out)
+        for i in range(48 if quick else 500):
+            ctx.guard(check_dataset_likelihoods, ctx, chi, lib, ctx.sub_rng(5 * 10 ** 5 + i), out)
         # --- generated compartment models, dosed
         for i in range(24 if quick else 400):
             ctx.guard(check_generated_dosing, ctx, chi, i, ctx.sub_rng(3 * 10 ** 5 + i))
